@@ -12,9 +12,10 @@ C06 = ['C06_notice_insert', 'C06_marker_dropped', 'C06_marker_shapes_dot', 'C06_
 C07 = ['C07_exact_copy_position_independent_partial', 'C07_hash_join_position_independent_partial', 'C07_hit_bitmap_position_independent_partial',
        'C07_window_refines_count', 'C07_detect_runs_spec', 'C07_runs_sound', 'C07_window_position_independent', 'C07_window_qualifies_embedded',
        'C07_window_nothing_after', 'C07_window_before_needs_first', 'C07_fusion_position_independent_partial', 'C07_fusion_size_irrelevant',
-       'C07_potential_matches_shift_given_runs_partial', 'C07_clamp_is_position_dependent']
+       'C07_potential_matches_shift_given_runs_partial', 'C07_clamp_is_position_dependent',
+       'C07_detect_runs_position_independent_partial', 'C07_searchset_stage_position_independent_partial', 'C07_matched_ranges_stage_position_independent_partial']
 C10 = ['C10_total_for_valid_oracle', 'C10_match_total', 'C10_ranges_in_bounds', 'C10_offsets_bounded', 'C10_reader_total']
 C11 = ['C11_for_checked_tables', 'C11_restricted', 'C11_retokenize_normalized', 'C11_raw_vs_norm', 'C11_raw_tokens_well_formed', 'C11_raw_words_partial', 'C11_lines_monotone_partial']
 C17 = ['C17_offsets_reproduce_text', 'C17_tokens_ordered', 'C17_tokens_cover_non_space', 'C17_candidates_well_formed', 'C17_candidates_ordered', 'C17_target_range_inside_text', 'C17_original_refuted',
        'C17_windows_in_bounds', 'C17_sort_establishes_hypotheses', 'C17_candidates_from_nodes', 'C17_target_range_from_nodes']
-C13 = ['C13_occurrence_ending_inside_a_token', 'C13_exact_occurrence_span', 'C13_reported_spans_inside_text']
+C13 = ['C13_occurrence_starting_inside_a_token', 'C13_start_token_never_found', 'C13_occurrence_ending_inside_a_token', 'C13_exact_occurrence_span', 'C13_reported_spans_inside_text']
